@@ -52,7 +52,7 @@ TrOpen ==
              THEN [kind |-> "reader", api |-> "reader", ds |-> [rows |-> Ev.rows, fault |-> 0], mode |-> Ev.mode,
                    limit |-> IF Ev.until < 0 THEN None ELSE Some(Ev.until), end |-> "close", k |-> 0,
                    started |-> FALSE, pos |-> 0, out |-> <<>>, acc |-> 0, rej |-> 0, yielded |-> 0, exc |-> NoErr,
-                   resumed |-> FALSE, createdAt |-> 0, sid |-> Ev.sid]
+                   resumed |-> FALSE, createdAt |-> 0, again |-> FALSE, sid |-> Ev.sid]
              ELSE [kind |-> "writer", ds |-> [rows |-> Ev.rows, fault |-> 0], closes |-> TRUE, pos |-> 0, line |-> 0,
                    out |-> <<>>, acc |-> 0, rej |-> 0, sid |-> Ev.sid]
   \* a reader that was created and not started yet stays behind (Park); any other unfinished session is simply dropped
@@ -65,6 +65,13 @@ TrResume ==
   /\ ~(sess.kind \in {"reader", "writer", "closed"} /\ Ev.sid = sess.sid)
   /\ sess' = [parked EXCEPT !.resumed = TRUE] /\ parked' = NoSess /\ calls' = <<>>
   /\ UNCHANGED <<chk, hist, tid, l>>
+
+\* rows() is called once more on the reader (ReadAgain): its counters, row numbers and items start afresh
+TrAgain ==
+  /\ More /\ Ev.ev = "again" /\ sess.kind = "reader" /\ Ev.sid = sess.sid
+  /\ sess' = [sess EXCEPT !.ds = [rows |-> Ev.rows, fault |-> 0], !.started = FALSE, !.pos = 0, !.out = <<>>, !.acc = 0,
+                          !.rej = 0, !.yielded = 0, !.exc = NoErr, !.resumed = TRUE, !.again = TRUE]
+  /\ calls' = <<>> /\ UNCHANGED <<chk, hist>> /\ Step
 
 Mine == sess.kind \in {"reader", "writer", "closed"} /\ Ev.sid = sess.sid
 
@@ -121,7 +128,7 @@ TrWrite ==
   /\ IF Ev.sizes = <<>> THEN TRUE ELSE Ev.sizes = Sizes(chk')                 \* (not logged if the writer was dropped)
   /\ Step
 
-TNext == TrOpen \/ TrResume \/ TrStart \/ TrRow \/ TrExit \/ TrClose \/ TrWrite
+TNext == TrOpen \/ TrResume \/ TrAgain \/ TrStart \/ TrRow \/ TrExit \/ TrClose \/ TrWrite
 TSpec == TInit /\ [][TNext]_tvars
 
 \* one line per reached position; the harness accepts a trace iff position Len+1 was reached
